@@ -42,6 +42,177 @@ type C18Spec struct {
 	// goroutines measure other multi-line strings; the first deviating result is
 	// what gets reported
 	Conc int `json:"conc,omitempty"`
+	// Grid: a whole table of texts rendered through ONE texttable wrapper, again
+	// after every change made in place
+	Grid *C18Grid `json:"grid,omitempty"`
+}
+
+type C18GridOp struct {
+	Op string   `json:"op"`          // set: the item of cell (R,C) changes to T, then Update() on the cell from CellAt / Headers (R = -1: header); add: Row.Add of a cell with text T to row R; hdr: AddHeaders(H...)
+	R  int      `json:"r,omitempty"` // 0-based body row, -1 = the header
+	C  int      `json:"c,omitempty"` // 0-based column
+	T  []byte   `json:"t,omitempty"`
+	H  [][]byte `json:"h,omitempty"`
+}
+
+type C18Grid struct {
+	Header *[][]byte   `json:"header,omitempty"`
+	Rows   [][][]byte  `json:"rows"`
+	Ops    []C18GridOp `json:"ops,omitempty"`
+}
+
+type c18Stage struct {
+	NCols  int
+	Header *[]string
+	Rows   [][]string
+}
+
+func (st c18Stage) clone() c18Stage {
+	c := c18Stage{NCols: st.NCols}
+	if st.Header != nil {
+		h := append([]string{}, (*st.Header)...)
+		c.Header = &h
+	}
+	for _, r := range st.Rows {
+		c.Rows = append(c.Rows, append([]string{}, r...))
+	}
+	return c
+}
+
+func (st c18Stage) Coq() string {
+	h := "None"
+	if st.Header != nil {
+		h = cqSome(cqStrs(*st.Header))
+	}
+	rows := make([]string, len(st.Rows))
+	for i, r := range st.Rows {
+		rows[i] = cqStrs(r)
+	}
+	return fmt.Sprintf("(mkStage %s %s %s)", cqNat(st.NCols), h, cqList(rows))
+}
+
+func (st c18Stage) texts() []string {
+	var out []string
+	if st.Header != nil {
+		out = append(out, *st.Header...)
+	}
+	for _, r := range st.Rows {
+		out = append(out, r...)
+	}
+	return out
+}
+
+// c18RunGrid builds the table (every cell holds a pointer item with a String
+// method, so that its text can change), renders it through one wrapper, and
+// again after every change; it keeps its own record of what the table holds.
+func c18RunGrid(g *C18Grid, dry bool) (stages []c18Stage, renders []string) {
+	// dry: only the record is kept (the case's input), nothing is built
+	t := tabular.New()
+	mk := func(text string) (interface{}, *objData) { return newObj(1, objData{s: text}) }
+	var hdata []*objData
+	var rdata [][]*objData
+	cur := c18Stage{}
+	grow := func(n int) {
+		if n > cur.NCols {
+			cur.NCols = n
+		}
+	}
+	setHeaders := func(texts [][]byte) {
+		items := make([]interface{}, len(texts))
+		hdata = make([]*objData, len(texts))
+		h := make([]string, len(texts))
+		for i, b := range texts {
+			items[i], hdata[i] = mk(string(b))
+			h[i] = string(b)
+		}
+		if !dry {
+			t.AddHeaders(items...)
+		}
+		cur.Header = &h
+		grow(len(texts))
+	}
+	if g.Header != nil {
+		setHeaders(*g.Header)
+	}
+	for _, r := range g.Rows {
+		items := make([]interface{}, len(r))
+		ds := make([]*objData, len(r))
+		txt := make([]string, len(r))
+		for i, b := range r {
+			items[i], ds[i] = mk(string(b))
+			txt[i] = string(b)
+		}
+		if !dry {
+			t.AddRowItems(items...)
+		}
+		rdata = append(rdata, ds)
+		cur.Rows = append(cur.Rows, txt)
+		grow(len(r))
+	}
+	var tt *texttable.TextTable
+	if !dry {
+		tt = texttable.Wrap(t)
+		if _, err := tt.SetDecorationNamed(decoration.D_ASCII_SIMPLE); err != nil {
+			panic("harness: ascii-simple decoration is not registered: " + err.Error())
+		}
+	}
+	render := func() {
+		stages = append(stages, cur.clone())
+		if dry {
+			return
+		}
+		out, err := tt.Render()
+		if err != nil {
+			out = "render error: " + err.Error()
+		}
+		renders = append(renders, out)
+	}
+	render()
+	for _, op := range g.Ops {
+		switch op.Op {
+		case "set":
+			if op.R == -1 {
+				if cur.Header == nil || op.C < 0 || op.C >= len(*cur.Header) {
+					continue
+				}
+				if !dry {
+					hdata[op.C].s = string(op.T)
+					(&t.Headers()[op.C]).Update()
+				}
+				(*cur.Header)[op.C] = string(op.T)
+			} else {
+				if op.R < 0 || op.R >= len(cur.Rows) || op.C < 0 || op.C >= len(cur.Rows[op.R]) {
+					continue
+				}
+				if !dry {
+					rdata[op.R][op.C].s = string(op.T)
+					c, err := t.CellAt(tabular.CellLocation{Row: op.R + 1, Column: op.C + 1})
+					if err != nil {
+						panic("CellAt: " + err.Error())
+					}
+					c.Update()
+				}
+				cur.Rows[op.R][op.C] = string(op.T)
+			}
+		case "add":
+			if op.R < 0 || op.R >= len(cur.Rows) {
+				continue
+			}
+			it, d := mk(string(op.T))
+			if !dry {
+				t.AllRows()[op.R].Add(tabular.NewCell(it))
+			}
+			rdata[op.R] = append(rdata[op.R], d)
+			cur.Rows[op.R] = append(cur.Rows[op.R], string(op.T))
+			grow(len(cur.Rows[op.R]))
+		case "hdr":
+			setHeaders(op.H)
+		default:
+			continue
+		}
+		render()
+	}
+	return stages, renders
 }
 
 // the companions of the item in render modes 3-5, derived from s alone: the
@@ -103,7 +274,14 @@ type C18Obs struct {
 	Steps      []C18CellObs `json:"cell_after_updates,omitempty"`
 	Render     string       `json:"rendered,omitempty"`
 	RenderLast string       `json:"rendered_after_last_update,omitempty"`
+	Grid       []string     `json:"grid_rendered,omitempty"`
+	GridW      []c18LW      `json:"-"`
 	Sig        string       `json:"sig,omitempty"`
+}
+
+type c18LW struct {
+	L string
+	W int
 }
 
 func cqStrs(xs []string) string {
@@ -126,8 +304,12 @@ func (o C18Obs) Coq() string {
 	for i, c := range o.Steps {
 		st[i] = c.Coq()
 	}
-	return fmt.Sprintf("(Ok (mkObs18 %s %s %s %s %s %s %s %s))", cqStrs(o.Lines), cqList(ms), o.Whole.Coq(), o.Long.Coq(),
-		o.Cell.Coq(), cqList(st), cqStr(o.Render), cqStr(o.RenderLast))
+	gw := make([]string, len(o.GridW))
+	for i, p := range o.GridW {
+		gw[i] = cqPair(cqStr(p.L), cqNat(p.W))
+	}
+	return fmt.Sprintf("(Ok (mkObs18 %s %s %s %s %s %s %s %s %s %s))", cqStrs(o.Lines), cqList(ms), o.Whole.Coq(), o.Long.Coq(),
+		o.Cell.Coq(), cqList(st), cqStr(o.Render), cqStr(o.RenderLast), cqStrs(o.Grid), cqList(gw))
 }
 
 // the item that carries s into the cell, and how to change its text
@@ -244,6 +426,21 @@ func c18Observe(sp C18Spec) (o C18Obs) {
 	}
 	if sp.Conc > 0 {
 		c18Concurrent(sp, &o)
+	}
+	if sp.Grid != nil {
+		stages, renders := c18RunGrid(sp.Grid, false)
+		o.Grid = renders
+		seen := map[string]bool{}
+		for _, st := range stages {
+			for _, t := range st.texts() {
+				for _, l := range ownLines(t) {
+					if !seen[l] {
+						seen[l] = true
+						o.GridW = append(o.GridW, c18LW{l, length.StringCells(l)})
+					}
+				}
+			}
+		}
 	}
 	return o
 }
@@ -571,6 +768,9 @@ func (sp C18Spec) key() string {
 	for _, n := range sp.Next {
 		fmt.Fprintf(&sb, "\x00>%s", n)
 	}
+	if sp.Grid != nil {
+		sb.Write(mustJSON(sp.Grid))
+	}
 	return sb.String()
 }
 
@@ -582,6 +782,26 @@ func (sp C18Spec) size() int {
 	if sp.RMode != 0 {
 		n += 1 + sp.RMode/3
 	}
+	if g := sp.Grid; g != nil {
+		if g.Header != nil {
+			n += 3
+			for _, t := range *g.Header {
+				n += 5 + len(t)
+			}
+		}
+		for _, r := range g.Rows {
+			n += 3
+			for _, t := range r {
+				n += 5 + len(t)
+			}
+		}
+		for _, op := range g.Ops {
+			n += 10 + len(op.T)
+			for _, t := range op.H {
+				n += 2 + len(t)
+			}
+		}
+	}
 	return n + sp.Conc
 }
 
@@ -590,6 +810,165 @@ func (sp C18Spec) with(s string) C18Spec {
 	c.S = []byte(s)
 	c.Q = fmt.Sprintf("%q", s)
 	return c
+}
+
+func bs(xs ...string) [][]byte {
+	out := make([][]byte, len(xs))
+	for i, x := range xs {
+		out[i] = []byte(x)
+	}
+	return out
+}
+
+func c18GridSpec(g C18Grid) C18Spec {
+	sp := c18Spec("", 0)
+	sp.Grid = &g
+	return sp
+}
+
+var c18GridTexts = []string{"a", "", "ab\ncd", "x\ny\nz", "\u4e16\u754c", "wide text here", "e\u0301\n\u0301", "q\n", "1\n22\n333\n", "\u200b", "caf\u00e9"}
+
+func c18RandGrid(r *RNG) C18Grid {
+	text := func() []byte {
+		if r.Pct(75) {
+			return []byte(pick(r, c18GridTexts))
+		}
+		return []byte(c18Rand(r))
+	}
+	ncols := 1 + r.Intn(4)
+	var g C18Grid
+	if r.Pct(60) {
+		h := make([][]byte, 1+r.Intn(ncols))
+		for i := range h {
+			h[i] = text()
+		}
+		g.Header = &h
+	}
+	for n := 1 + r.Intn(4); n > 0; n-- {
+		row := make([][]byte, r.Intn(ncols+1))
+		for i := range row {
+			row[i] = text()
+		}
+		g.Rows = append(g.Rows, row)
+	}
+	for n := r.Intn(4); n > 0; n-- {
+		switch r.Intn(4) {
+		case 0:
+			g.Ops = append(g.Ops, C18GridOp{Op: "add", R: r.Intn(len(g.Rows)), T: text()})
+		case 1:
+			if g.Header != nil {
+				h := make([][]byte, len(*g.Header))
+				for i := range h {
+					h[i] = text()
+				}
+				g.Ops = append(g.Ops, C18GridOp{Op: "hdr", H: h})
+				continue
+			}
+			fallthrough
+		default:
+			rr := r.Intn(len(g.Rows)+1) - 1
+			g.Ops = append(g.Ops, C18GridOp{Op: "set", R: rr, C: r.Intn(ncols), T: text()})
+		}
+	}
+	return g
+}
+
+func c18GridTags(g *C18Grid) []string {
+	tags := []string{"grid", fmt.Sprintf("grid-changes-in-place=%d", min(len(g.Ops), 3))}
+	stages, _ := c18RunGrid(g, true)
+	shortMulti, empty := false, false
+	for _, st := range stages {
+		for _, r := range st.Rows {
+			if len(r) == 0 {
+				empty = true
+			}
+			if len(r) > 0 && len(r) < st.NCols {
+				for _, t := range r {
+					if len(ownLines(t)) >= 2 {
+						shortMulti = true
+					}
+				}
+			}
+		}
+	}
+	if shortMulti {
+		tags = append(tags, "grid-short-row-with-multi-line-cell")
+	}
+	if empty {
+		tags = append(tags, "grid-row-without-cells")
+	}
+	if len(stages) > 1 {
+		tags = append(tags, "grid-rendered-again-through-the-same-wrapper")
+	}
+	return tags
+}
+
+func c18GridShrink(sp C18Spec) []C18Spec {
+	g := sp.Grid
+	var out []C18Spec
+	clone := func() C18Grid {
+		var c C18Grid
+		b, _ := json.Marshal(g)
+		json.Unmarshal(b, &c)
+		return c
+	}
+	for i := range g.Ops {
+		c := clone()
+		c.Ops = append(c.Ops[:i:i], c.Ops[i+1:]...)
+		out = append(out, c18GridSpec(c))
+	}
+	if g.Header != nil {
+		if len(g.Ops) == 0 {
+			c := clone()
+			c.Header = nil
+			out = append(out, c18GridSpec(c))
+		}
+		if len(*g.Header) > 0 {
+			c := clone()
+			h := (*c.Header)[:len(*c.Header)-1]
+			c.Header = &h
+			out = append(out, c18GridSpec(c))
+		}
+	}
+	for i := range g.Rows {
+		if len(g.Rows) > 1 {
+			c := clone()
+			c.Rows = append(c.Rows[:i:i], c.Rows[i+1:]...)
+			out = append(out, c18GridSpec(c))
+		}
+		if len(g.Rows[i]) > 0 {
+			c := clone()
+			c.Rows[i] = c.Rows[i][:len(c.Rows[i])-1]
+			out = append(out, c18GridSpec(c))
+		}
+		for j := range g.Rows[i] {
+			if t := g.Rows[i][j]; len(t) > 1 {
+				c := clone()
+				c.Rows[i][j] = t[:len(t)/2]
+				out = append(out, c18GridSpec(c))
+				c2 := clone()
+				c2.Rows[i][j] = []byte("a")
+				out = append(out, c18GridSpec(c2))
+			}
+		}
+	}
+	if g.Header != nil {
+		for j, t := range *g.Header {
+			if len(t) > 1 {
+				c := clone()
+				(*c.Header)[j] = []byte("h")
+				out = append(out, c18GridSpec(c))
+			}
+		}
+	}
+	for i, op := range g.Ops {
+		if len(op.T) > 1 {
+			c := clone()
+			c.Ops[i].T = op.T[:len(op.T)/2]
+			out = append(out, c18GridSpec(c))
+		}
+	}
+	return out
 }
 
 func init() {
@@ -604,6 +983,7 @@ func init() {
 			"for the mutable item kinds the text is then taken through a chain (-> empty, -> longer with more lines, -> shorter, -> more lines, -> fewer lines, -> empty) with Update() and the same reads after every step; " +
 			"render probe: the item as the only body (or header) cell of a table, or in a one-column table together with a wider ASCII text and a twin item with the same text that declares its own display width (three orders), rendered by texttable with the ascii-simple decoration, the bytes compared with rules of width+2 dashes and content lines padded by width - StringCells(line) (for the table-held cell also after the last Update); " +
 			"a few multi-line strings are measured repeatedly while 8-32 other goroutines measure other multi-line strings; " +
+			"grid probe: whole tables of texts (1-4 columns, with and without headers, full, short and empty rows, multi-line cells in short rows) rendered through ONE texttable wrapper, and again after every change made in place (a cell's item changed + Update() via CellAt / Headers, Row.Add to a row already in the table, the headers replaced by as many new ones); every rendering is compared with the layout computed from length.StringCells per line: column width = widest cell of the column, every cell line padded to it; " +
 			"every string of up to 4 (quick) or 5 (thorough) symbols over {LF, 'a', U+4E16 (3 bytes, double width), U+0301 (combining), byte 0xFF}, multi-line strings whose widest line is plain ASCII next to a shorter line with multi-byte / wide / combining / zero-width characters, and random strings up to ~30 bytes over " +
 			"CJK, combining marks, ZWJ emoji sequences, VS16, regional indicators, tabs, CR, CRLF, NUL, DEL, soft hyphen and ill-formed UTF-8 (truncated, overlong, surrogate, > U+10FFFF, stray continuation), with leading/repeated/trailing newlines; " +
 			"grapheme clusters and rune widths of every string measured and of each of its lines are taken from the real uniseg / go-runewidth and the three oracle assumptions are checked on them; " +
@@ -670,6 +1050,65 @@ func init() {
 					i++
 				}
 			}
+			// whole tables: short rows holding multi-line cells ...
+			for ncols := 2; ncols <= 3; ncols++ {
+				full := []string{"F0", "F-one", "F2"}[:ncols]
+				for k := 1; k < ncols; k++ {
+					for pos := 0; pos < k; pos++ {
+						short := make([]string, k)
+						for j := range short {
+							short[j] = "s"
+						}
+						short[pos] = "L1\nline 2\nl3"
+						for v := 0; v < 4; v++ {
+							g := C18Grid{}
+							if v&1 != 0 {
+								h := bs([]string{"H0", "H1", "H2"}[:ncols]...)
+								g.Header = &h
+							}
+							if v&2 != 0 {
+								g.Rows = [][][]byte{bs(short...), bs(full...)}
+							} else {
+								g.Rows = [][][]byte{bs(full...), bs(short...), bs()}
+							}
+							add(c18GridSpec(g))
+						}
+					}
+				}
+			}
+			// ... and one wrapper rendering again after a change made in place
+			h2 := bs("h1", "h2")
+			base := func(withHeader bool) C18Grid {
+				g := C18Grid{Rows: [][][]byte{bs("a", "b"), bs("c")}}
+				if withHeader {
+					g.Header = &h2
+				}
+				return g
+			}
+			opSeqs := [][]C18GridOp{
+				{{Op: "set", R: 0, C: 0, T: []byte("much wider than before")}},
+				{{Op: "set", R: 0, C: 1, T: []byte("two\nlines now")}, {Op: "set", R: 0, C: 1, T: []byte("")}},
+				{{Op: "add", R: 1, T: []byte("added and wide")}},
+				{{Op: "set", R: 1, C: 0, T: []byte("\u4e16\u754c\u4e16\u754c")}, {Op: "add", R: 1, T: []byte("x\ny")}},
+				{{Op: "hdr", H: bs("a much longer heading", "h2")}},
+				{{Op: "set", R: -1, C: 1, T: []byte("heading grew")}},
+				{{Op: "hdr", H: bs("H", "second heading")}, {Op: "set", R: 0, C: 0, T: []byte("wider cell")}, {Op: "add", R: 1, T: []byte("z")}},
+				{{Op: "set", R: 0, C: 0, T: []byte("wide wide wide")}, {Op: "set", R: 0, C: 0, T: []byte("a")}},
+			}
+			for _, ops := range opSeqs {
+				for _, wh := range []bool{true, false} {
+					g := base(wh)
+					g.Ops = ops
+					add(c18GridSpec(g))
+				}
+			}
+			ngrid := 120
+			if tier == "thorough" {
+				ngrid = 4000
+			}
+			for j := 0; j < ngrid; j++ {
+				add(c18GridSpec(c18RandGrid(r)))
+			}
 			// measured while other goroutines measure other multi-line strings
 			nconc := 16
 			if tier == "thorough" {
@@ -681,7 +1120,7 @@ func init() {
 				sp.Conc = 8 + 8*(j%4)
 				add(sp)
 			}
-			n := 800
+			n := 600
 			if tier == "thorough" {
 				n = 60000
 			}
@@ -739,18 +1178,31 @@ func init() {
 				strs = append(strs, string(t))
 				strs = append(strs, ownLines(string(t))...)
 			}
+			var stageTerms []string
+			if sp.Grid != nil {
+				stages, _ := c18RunGrid(sp.Grid, true)
+				for _, st := range stages {
+					stageTerms = append(stageTerms, st.Coq())
+					for _, t := range st.texts() {
+						strs = append(strs, ownLines(t)...)
+					}
+				}
+			}
 			segTab, rwTab, cwTab := c18Oracle(strs)
 			decl, wide := 0, ""
 			if sp.RMode >= 3 {
 				decl, wide = c18Companions(s)
 			}
-			in := fmt.Sprintf("(mkIn18 %s %s %s %s %s %s %s %s %s)", cqStr(s), cqNat(sp.Kind), cqList(nexts), cqNat(sp.RMode), cqStr(wide), cqNat(decl), segTab, rwTab, cwTab)
+			in := fmt.Sprintf("(mkIn18 %s %s %s %s %s %s %s %s %s %s)", cqStr(s), cqNat(sp.Kind), cqList(nexts), cqNat(sp.RMode), cqStr(wide), cqNat(decl), segTab, rwTab, cwTab, cqList(stageTerms))
 			tags := append(c18Tags(s, sp.Kind), fmt.Sprintf("updates=%d", min(len(sp.Next), 4)), fmt.Sprintf("rmode=%d", sp.RMode))
 			if c18AsciiWidest(s) {
 				tags = append(tags, "widest-line-ascii-other-line-not")
 			}
 			if sp.Conc > 0 {
 				tags = append(tags, "concurrent-measuring")
+			}
+			if sp.Grid != nil {
+				tags = append(tags, c18GridTags(sp.Grid)...)
 			}
 			for i, t := range sp.Next {
 				prev := s
@@ -778,6 +1230,12 @@ func init() {
 			}
 			var out []json.RawMessage
 			add := func(c C18Spec) { out = append(out, mustJSON(c)) }
+			if sp.Grid != nil {
+				for _, c := range c18GridShrink(sp) {
+					add(c)
+				}
+				return out
+			}
 			s := string(sp.S)
 			if len(sp.Next) > 0 {
 				c := sp
